@@ -320,7 +320,11 @@ def run(chk, facts, tier, only=None):
                     if ctor_name == "Record":
                         # the missing-field tolerance set
                         sets = []
-                        for m in nodes(r["body"], "match"):
+                        from shared import helper_bodies
+                        mms = list(nodes(r["body"], "match"))
+                        for hb in helper_bodies(facts.crate("candid"), r["body"]):
+                            mms.extend(nodes(hb, "match"))
+                        for m in mms:
                             hs = []
                             for a in m["arms"]:
                                 for alt in pat_alternatives(a["pat"]):
